@@ -11,13 +11,13 @@
 (* violation.  Whether a deviation is *enabled* is decided by the entries  *)
 (* of known_findings.json, never here.                                     *)
 (***************************************************************************)
-EXTENDS GoitProps
+EXTENDS GoitFSProps
 
 DevIds == {}
 
-Dev(d, s, e, t) == FALSE
+Dev(d, s, e, t, f) == FALSE
 
 Explains(d) == {}
 
-Devs(s, e, t) == {d \in DevIds : Dev(d, s, e, t)}
+Devs(s, e, t, f) == {d \in DevIds : Dev(d, s, e, t, f)}
 =============================================================================
